@@ -3,7 +3,7 @@
 (* Implementation -> spec for the rendering rules of module Show: values   *)
 (* built by the harness are shown by the real code; every produced text    *)
 (* must be the one the specification defines.  Monitor style.              *)
-(*   settings{inf32,inf64,inf128,prec,width}    show_cfg!-style update     *)
+(*   reset{inf32,inf64,inf128,prec,width}       new ShowSettings              *)
 (*   show{v,out}  pretty_matrix{rows,out}  pretty_map{v,out}               *)
 (*   treap_debug{pre,out}  tree_print{pre,out}  out{parts,ln,sink}         *)
 (***************************************************************************)
@@ -17,7 +17,7 @@ Init == l = 1 /\ st = [inf32 |-> <<>>, inf64 |-> <<>>, inf128 |-> <<>>, prec |->
 Cmp(e, want) == (e.out # want) => Mismatch(l, e, [out |-> want])
 
 Step(e) ==
-    CASE e.ev = "settings" -> st' = [inf32 |-> e.inf32, inf64 |-> e.inf64, inf128 |-> e.inf128, prec |-> e.prec, width |-> e.width]
+    CASE e.ev = "reset" -> st' = [inf32 |-> e.inf32, inf64 |-> e.inf64, inf128 |-> e.inf128, prec |-> e.prec, width |-> e.width]
       [] e.ev = "show" ->
             /\ (~AllLeavesOK(e.v, st)) => Mismatch(l, e, "a leaf is not rendered by its rule")
             /\ Cmp(e, Render(e.v, st)) /\ UNCHANGED st
